@@ -7,7 +7,7 @@
   All theorems quantify over every batch shape (any rank, any sizes incl. 0), every feature shape and every
   index of the stated grammar; none is a finite enumeration.
 -/
-import TdVerif.Lemmas.C03InB
+import TdVerif.Lemmas.C03Inj
 
 namespace TdVerif.Props.C03
 open TdVerif.C03 TdVerif.C03.TorchSpec TdVerif.C03.Td
@@ -646,6 +646,38 @@ check on gathered elements and the size-0 indexed-dim rule are exactly what is n
 theorem src_in_bounds (dims : Shape) (items : List Ix) (R : IndexResult) (h : index dims items = .ok R)
     (c : List Nat) (hc : c ∈ coords R.shape) : R.src c ∈ coords dims :=
   index_src_inB dims items R h c hc
+
+/-- **A basic index never selects an element twice.** For every index made of ints, 0-d integer tensors, slices, `None` and an Ellipsis that
+torch accepts, distinct coordinates of the result are distinct elements of the source (a select is constant, a slice moves with a positive
+step — torch rejects the others —, a new dim has size 1). So a write through a basic index has no "which copy wins" question at all. -/
+theorem basic_index_selects_each_element_once (dims : Shape) (items : List Ix) (R : IndexResult)
+    (h : index dims items = .ok R) (hb : items.all isBasic = true) :
+    ∀ c1 ∈ coords R.shape, ∀ c2 ∈ coords R.shape, R.src c1 = R.src c2 → c1 = c2 :=
+  index_src_inj_of_basic dims items R h hb
+
+/-- **Hit, basic indices (exact).** `td[idx] = value` with a basic Ellipsis-free index: the leaf element `R.src c ++ f` receives exactly the
+element of the (broadcast) value meant for the coordinate `c ++ f` of the indexed region — no alternative. -/
+theorem setitem_hit_basic (bs feat : Shape) (items : List Ix) (v : Shape) (R : IndexResult)
+    (w : List Nat → Option (List Nat)) (hn : noEll items = true) (hb : items.all isBasic = true)
+    (h : index bs items = .ok R) (hw : setIndex (bs ++ feat) items v = .ok w)
+    (c f : List Nat) (hc : c ∈ coords R.shape) (hf : f ∈ coords feat) :
+    w (R.src c ++ f) = some (valueCoord v (R.shape ++ feat) (c ++ f)) := by
+  obtain ⟨c2, hc2, f2, hf2, heq, hval⟩ := setitem_hit bs feat items v R w hn h hw c f hc hf
+  have hl : (R.src c2).length = (R.src c).length := by
+    rw [src_rank bs items R h c2, src_rank bs items R h c]
+  obtain ⟨e1, e2⟩ := List.append_inj heq hl
+  have := index_src_inj_of_basic bs items R h hb c2 hc2 c hc e1
+  rw [hval, this, e2]
+
+/-- **Hit through two basic sub-tensordicts (exact; the domain of seeded mutant C03-5).** With basic `i1`, `i2` no window repeats an
+element, so `inner[i3] = value` puts into the root element `R1.src (R2.src r)` exactly what `window[i3] = value` put into cell `r`. -/
+theorem subsub_write_hit_basic (dims : Shape) (items1 items2 : List Ix) (R1 R2 : IndexResult) (w3 : List Nat → Option (List Nat))
+    (h1 : index dims items1 = .ok R1) (h2 : index R1.shape items2 = .ok R2)
+    (hb1 : items1.all isBasic = true) (hb2 : items2.all isBasic = true)
+    (r : List Nat) (hr : r ∈ coords R2.shape) :
+    writeThrough R1 (writeThrough R2 w3) (R1.src (R2.src r)) = w3 r ∧ R1.src (R2.src r) ∈ coords dims :=
+  subsub_write_hit dims items1 items2 R1 R2 w3 h1 h2 (index_src_inj_of_basic dims items1 R1 h1 hb1)
+    (index_src_inj_of_basic R1.shape items2 R2 h2 hb2) r hr
 
 /-- **Reading through a sub-tensordict of a sub-tensordict is torch applied twice to the batch dims.** For Ellipsis-free tuple indices,
 `i1` accepted by torch on the batch shape (result `R1`) and `i2` accepted on `R1.shape` (result `R2`):
